@@ -146,7 +146,17 @@ def observe(w, mark):
     writes = []
     for (_t, _time, data) in wire:
         writes.extend(S.split_types(data))
-    return {'state': w.state, 'writes': writes,
+    opens = []
+    for (_t, _time, data) in wire:
+        i = 0
+        while i + 19 <= len(data):
+            ln = data[i + 16] * 256 + data[i + 17]
+            if data[i + 18] == 1 and ln >= 29:
+                opens.append((data[i + 19], data[i + 20] * 256 + data[i + 21], data[i + 22] * 256 + data[i + 23]))
+            if ln < 19:
+                break
+            i += ln
+    return {'state': w.state, 'writes': writes, 'opens': opens,
             'close': len(w.reactor.lose_log) - mark['lose'],
             'connects': len(w.reactor.connectors) - mark['conn'],
             'cbs': [h[0] for h in w.handler.log[mark['hlog']:]],
